@@ -543,8 +543,46 @@ def r11_7(chk, so):
     lits = {n.value for n in ast.walk(fn) if isinstance(n, ast.Constant) and isinstance(n.value, str) and len(n.value) <= 3}
     chk.ob("R11.7", SO, "encode_symm_str", "axis symbols are 'xyz' in column order and signs are '+'/'-'",
            syms == "xyz" and {"+", "-", ","} <= lits, found=f"{syms} {sorted(lits)}")
-    # row i uses rotation[i][j] for column j
-    ok = any(e.kind == "assign" and e.name == "c" and e.value.key().startswith("rotation[") for e in ev.events)
-    cells = {e.value.key() for e in ev.events if e.kind == "assign" and e.name == "c"}
+    # component i of the string is row i of the rotation: every rotation entry consulted while building component i has row index i
+    rot = ev.param_names[0]
+    roots = {rot, f"numpy.asarray({rot})", f"numpy.array({rot})"}
+    signs = {e.value.key() for e in ev.events if e.kind == "assign" and e.value is not None and call_name(e.value.as_atom() or ()) == "numpy.where"
+             and any(r in e.value.key() for r in roots)}
+    comp = None
+    reads = {}
+
+    def index_of(a):
+        """(row, col) of a subscript chain on the rotation (or on the sign table derived from it); '*' = whole axis, 'v' = variable."""
+        base = a[1]
+        idx = list(a[2])
+        ba = base.as_atom()
+        if ba and ba[0] == "sub" and (ba[1].key() in roots or ba[1].key() in signs):
+            idx = list(ba[2]) + idx
+            base = ba[1]
+        if base.key() not in roots and base.key() not in signs:
+            return None
+        out = []
+        for x in idx[:2]:
+            xa = x.as_atom()
+            if x.const_value() is not None:
+                out.append(int(x.const_value()))
+            elif xa and xa[0] == "slice":
+                out.append("*")
+            else:
+                out.append("v")
+        return tuple(out)
+    for e in ev.events:
+        if e.kind == "assign" and e.name == "i" and e.value is not None and e.value.const_value() is not None and not e.loops:
+            comp = int(e.value.const_value())
+            continue
+        if comp is None or e.value is None or (e.kind == "assign" and e.name in ("signs",)):
+            continue
+        for a in find_atoms(e.value, lambda a: a[0] == "sub"):
+            ix = index_of(a)
+            if ix and len(ix) == 2:
+                reads.setdefault(comp, set()).add(ix)
+    chk.need(set(reads) == {0, 1, 2}, f"encode_symm_str: rotation entries consulted per component not recognised: {reads}")
+    bad = {i: sorted(map(str, (x for x in r if x[0] != i))) for i, r in reads.items() if any(x[0] != i for x in r)}
     chk.ob("R11.7", SO, "encode_symm_str", "entry (i, j) of the rotation decides the sign of symbol j in component i",
-           ok and any("rotation[0][" in c for c in cells) and any("rotation[2][" in c for c in cells), found=sorted(cells)[:3])
+           not bad, fingerprint="encoder-rows", expected="component i reads rotation[i][j] only",
+           found=f"component -> entries with another row index: {bad}" if bad else str({i: sorted(map(str, r)) for i, r in reads.items()}))
